@@ -162,10 +162,60 @@ func cmdCheck(args []string) int {
 			fmt.Printf("ENGINE-ERROR: function %s not found in the current tree (renamed or removed?)\n", fname)
 			return 2
 		}
-		e := NewEnc(P, DB, f)
-		if err := e.Run(); err != nil {
-			fmt.Printf("ENGINE-ERROR: %v\n", err)
-			return 2
+		// Houdini pre-pass: automatically guessed loop invariants (counter ranges) that
+		// do not discharge are dropped, never assumed.
+		disabled := map[string]bool{}
+		var e *Enc
+		for round := 0; round < 5; round++ {
+			e = NewEnc(P, DB, f)
+			e.disabledAuto = disabled
+			if err := e.Run(); err != nil {
+				fmt.Printf("ENGINE-ERROR: %v\n", err)
+				return 2
+			}
+			changed := false
+			var autos []*Obligation
+			for _, o := range e.obls {
+				if strings.Contains(o.Name, ".auto") {
+					autos = append(autos, o)
+				}
+			}
+			if len(autos) == 0 {
+				break
+			}
+			os.MkdirAll(filepath.Join(verifDir(), ".work", id+".auto"), 0o755)
+			var mu sync.Mutex
+			var wg sync.WaitGroup
+			sem := make(chan struct{}, 14)
+			for _, o := range autos {
+				wg.Add(1)
+				go func(o *Obligation) {
+					defer wg.Done()
+					sem <- struct{}{}
+					defer func() { <-sem }()
+					r, _ := Solve(o, SolverCfg{Timeout: 5 * time.Second, WorkDir: filepath.Join(verifDir(), ".work", id+".auto"), Seed: seed})
+					if r.Status != "unsat" {
+						// name: fn#loopN.autoK.init / .keep@bM
+						nm := o.Name[strings.Index(o.Name, "#")+1:]
+						parts := strings.SplitN(nm, ".", 3)
+						key := parts[0] + "." + parts[1]
+						mu.Lock()
+						if !disabled[key] {
+							disabled[key] = true
+							changed = true
+						}
+						mu.Unlock()
+					}
+				}(o)
+			}
+			wg.Wait()
+			os.RemoveAll(filepath.Join(verifDir(), ".work", id+".auto"))
+			if !changed {
+				break
+			}
+		}
+		for k := range disabled {
+			e.note("automatic loop invariant %s does not hold inductively: dropped", k)
 		}
 		wit := e.witnessTerms()
 		for _, o := range e.obls {
@@ -576,6 +626,7 @@ func (e *Enc) witnessTerms() []WitnessTerm {
 	if len(out) > 400 {
 		out = out[:400]
 	}
+	out = append(out, e.retWit...)
 	return out
 }
 
